@@ -643,7 +643,7 @@ SPECS["C13"] = {
     "jobs": [
         {"pkg": "./pkg/cachedinstances/k8s", "harness": "pkg/cachedinstances/k8s", "mode": "machine",
          "entries": {"quick": ["VerifC13_2", "VerifC13_AddLookUpdLook", "VerifC13_AddLookDelLook", "VerifC13_Regexes", "VerifC13_Twin"],
-                     "thorough": ["VerifC13_2", "VerifC13_3", "VerifC13_AddLookUpdLook", "VerifC13_AddLookDelLook", "VerifC13_Regexes", "VerifC13_RegexesUpd", "VerifC13_Twin"]},
+                     "thorough": ["VerifC13_2", "VerifC13_3", "VerifC13_AddLookUpdLook", "VerifC13_AddLookDelLook", "VerifC13_Regexes", "VerifC13_RegexesUpd", "VerifC13_RegexesUpdBoth", "VerifC13_Twin"]},
          "reach": {"VerifC13_AddLookUpdLook": ["add", "update", "lookup-none", "lookup-pod"], "VerifC13_AddLookDelLook": ["delete", "lookup-pod"], "VerifC13_Regexes": ["lookup-pod"]},
          "twin": {"VerifC13_Twin": True},
          "limits": {"quick": {"timeout": "900s"}, "thorough": {"timeout": "3000s"}}},
